@@ -2,8 +2,11 @@
 
 Runtime monitor: drv_constpool (ASan+UBSan build) drives ConstPool::add/fill histories - bounded-exhaustive over
 small alphabets, random/adversarial, and pools written out by x86::Assembler / x86::Builder / x86::Compiler /
-a64::Compiler - against an independent model (byte map + interval ownership). This module shards the work,
-merges what the monitors saw and turns it into a verdict."""
+a64::Compiler - against an independent model (byte map + interval ownership). Allocation-failure histories (fexh /
+frandom): the pool's Arena refuses the j-th request made inside a chosen add() (hook H1), for every add of every enumerated
+sequence and every j reachable in it; the refused constant is requested again, earlier constants are re-added, halves /
+quarters / new constants follow, the pool is written out by fill() and by embed_const_pool() of x86/a64 Assembler/Builder.
+This module shards the work, merges what the monitors saw and turns it into a verdict."""
 import json
 import re
 
@@ -34,6 +37,13 @@ def make_jobs(tier, seed, scale):
             jobs.append(["--mode", "random", "--seqs", str(max(1, int(4 * scale))), "--minlen", "2500", "--maxlen", "5000", "--seed", s()])
         for i in range(16):
             jobs.append(["--mode", "emit", "--cases", str(max(1, int(1500 * scale))), "--seed", s()])
+        # allocation-failure histories: every sequence of length 3 over each alphabet x every add x every arena request of it
+        for a in range(ALPHABETS):
+            sh_n = 4 if a in (3, 7) else 2
+            for sh in range(sh_n):
+                jobs.append(["--mode", "fexh", "--alpha", str(a), "--len", "3", "--shards", str(sh_n), "--shard", str(sh)])
+        for i in range(16):
+            jobs.append(["--mode", "frandom", "--seqs", str(max(1, int(6000 * scale))), "--seed", s()])
     else:
         for a in range(ALPHABETS):
             for sh in range(32):
@@ -48,6 +58,11 @@ def make_jobs(tier, seed, scale):
             jobs.append(["--mode", "random", "--seqs", str(max(1, int(12 * scale))), "--minlen", "5000", "--maxlen", "20000", "--seed", s()])
         for i in range(48):
             jobs.append(["--mode", "emit", "--cases", str(max(1, int(3000 * scale))), "--seed", s()])
+        for a in range(ALPHABETS):
+            for sh in range(16):
+                jobs.append(["--mode", "fexh", "--alpha", str(a), "--len", "4", "--shards", "16", "--shard", str(sh)])
+        for i in range(48):
+            jobs.append(["--mode", "frandom", "--seqs", str(max(1, int(30000 * scale))), "--seed", s()])
     return jobs
 
 
@@ -59,7 +74,10 @@ def stable(text):
 
 SUM_KEYS = ("sequences", "adds", "valid_adds", "invalid_rejected", "sharing", "gap_reuse", "dedup", "append", "fills",
             "bytes_compared", "resets", "pool_reuse", "readd_checks", "nontrivial", "emit_cases", "emit_pools",
-            "emit_exec", "emit_exec_bytes")
+            "emit_exec", "emit_exec_bytes",
+            "fault_histories", "fault_armed", "fault_fired", "fault_swallowed", "refused", "refused_left_bytes", "retries",
+            "retries_dedup", "retries_over_later", "consts_after_refusal", "readd_after_refusal", "derived_after_refusal",
+            "embeds_after_refusal", "reuse_after_refusal")
 
 
 def run(tier, args):
@@ -84,6 +102,14 @@ def run(tier, args):
     tot = {k: 0 for k in SUM_KEYS}
     tot["max_pool_size"] = 0
     tot["max_len"] = 0
+    tot["max_requests_in_add"] = 0
+    refused_by_index = [0] * 41
+    refused_by_pos = {}
+    fault_embed_paths = {}
+    fexh_nontrivial = 0
+    fexh_sequences = 0
+    fexh_done = {}
+    fault_samples = []
     by_size = [0] * 7
     emit_paths = {}
     distinct = set()
@@ -117,6 +143,13 @@ def run(tier, args):
             by_size[i] += v
         for k, v in res["emit_paths"].items():
             emit_paths[k] = emit_paths.get(k, 0) + v
+        tot["max_requests_in_add"] = max(tot["max_requests_in_add"], res["max_requests_in_add"])
+        for i, v in enumerate(res["refused_by_index"]):
+            refused_by_index[i] += v
+        for k, v in res["refused_by_pos"].items():
+            refused_by_pos[k] = refused_by_pos.get(k, 0) + v
+        for k, v in res["fault_embed_paths"].items():
+            fault_embed_paths[k] = fault_embed_paths.get(k, 0) + v
         mode = argv[1]
         if mode == "exh":
             # enumerated sequences are pairwise distinct by construction (distinct indices, distinct alphabets); the
@@ -130,9 +163,20 @@ def run(tier, args):
                     exh_done[(a, ln)] += 1
             else:
                 exh_fresh_sequences += res["sequences"]
+        elif mode == "fexh":
+            # (sequence, failing add, failing request, sticky, follow-up variant) tuples are distinct by construction
+            fexh_nontrivial += res["nontrivial"]
+            fexh_sequences += res["sequences"]
+            if not res["violations"]:
+                k = (argv[argv.index("--alpha") + 1], int(argv[argv.index("--len") + 1]))
+                fexh_done[k] = fexh_done.get(k, 0) + 1
         else:
             distinct.update(res["distinct"])
-        if res["samples"] and len(samples) < 4:
+        if mode in ("fexh", "frandom"):
+            if res["samples"] and len(fault_samples) < 2:
+                fault_samples.append({"driver_args": argv, "ops[size,bytes,offset,kind F=refused P=storage assigned by the refused call,"
+                                      "n-th arena request of the add that failed (negative: and all later)]": res["samples"][0]})
+        elif res["samples"] and len(samples) < 4:
             samples.append({"driver_args": argv, "ops[size,bytes,offset,kind N=append G=gap S=shared D=dedup I=refused]": res["samples"][0]})
 
     if dead:
@@ -149,16 +193,31 @@ def run(tier, args):
     if expected and all(exh_done.get(k, 0) == n for k, n in expected.items()) and \
             len(set(a for a, _ in expected)) == ALPHABETS:
         exh_len = min(ln for (_, ln) in expected)
+    fexpected = {}
+    for j in jobs:
+        if j[1] == "fexh":
+            k = (j[j.index("--alpha") + 1], int(j[j.index("--len") + 1]))
+            fexpected[k] = fexpected.get(k, 0) + 1
+    fexh_len = 0
+    if fexpected and all(fexh_done.get(k, 0) == n for k, n in fexpected.items()) and \
+            len(set(a for a, _ in fexpected)) == ALPHABETS:
+        fexh_len = min(ln for (_, ln) in fexpected)
+    if not args.replay and fexpected and tot["refused"] == 0:
+        raise common.HarnessError("allocation-failure histories ran but no add() was refused: hook H1 not effective")
     chk.coverage.update({
         "evaluations": tot["sequences"],
-        "distinct_nontrivial": exh_nontrivial + len(distinct),
+        "distinct_nontrivial": exh_nontrivial + fexh_nontrivial + len(distinct),
         "rule": "one evaluation = one sequence of ConstPool::add calls on one pool, checked against the model after every add "
                 "(short sequences) or at checkpoints (long ones) with a fresh fill() into a guard-banded buffer; distinct = "
                 "distinct hash of the (size,bytes) sequence (enumerated sequences are distinct by construction); non-trivial = "
                 "at least one add was placed into an alignment gap or shared a slot inside an earlier wider constant. "
                 "Completely enumerated sub-space: all sequences of length <= exhaustive_length_reached over each of the "
-                "%d six-item alphabets of drv_constpool.cpp; everything else is sampled" % ALPHABETS,
-        "samples": samples,
+                "%d six-item alphabets of drv_constpool.cpp; everything else is sampled. Allocation-failure histories: one "
+                "evaluation = one sequence on one pool in which chosen arena requests made inside add() calls fail (hook H1); "
+                "enumerated ones = every sequence of length failure_histories_exhaustive_length over each alphabet x every add "
+                "of a valid size x every arena request reachable inside it x {only that request, that and all later ones of "
+                "the call} x {retry at once, halves/quarters first, rest of the sequence first}" % ALPHABETS,
+        "samples": samples + fault_samples,
         "exhaustive": False,
         "exhaustive_length_reached": exh_len,
         "exhaustive_alphabets": ALPHABETS,
@@ -184,11 +243,34 @@ def run(tier, args):
         "emitter_paths": emit_paths,
         "jit_functions_executed": tot["emit_exec"],
         "jit_loaded_constant_bytes_compared": tot["emit_exec_bytes"],
+        "failure_histories_exhaustive_length": fexh_len,
+        "failure_histories_enumerated": fexh_sequences,
+        "histories_with_a_refused_request": tot["fault_histories"],
+        "adds_with_a_failure_armed": tot["fault_armed"],
+        "adds_in_which_the_armed_request_was_reached": tot["fault_fired"],
+        "failed_requests_not_reported_by_add_(gap_records_only)": tot["fault_swallowed"],
+        "refused_requests": tot["refused"],
+        "refused_requests_by_position_inside_add": refused_by_pos,
+        "refused_requests_by_ordinal_of_the_failed_arena_request_1_to_40": refused_by_index[1:],
+        "most_arena_requests_seen_in_one_add": tot["max_requests_in_add"],
+        "refused_requests_that_left_the_constant_registered_(visible_in_fill)": tot["refused_left_bytes"],
+        "retries_of_refused_constants_handed_out": tot["retries"],
+        "retries_answered_without_arena_request_(constant_was_registered_by_the_refused_call)": tot["retries_dedup"],
+        "constants_handed_out_over_storage_assigned_by_a_refused_call_and_shared_since": tot["retries_over_later"],
+        "constants_checked_after_a_refusal_(offset_and_bytes_in_a_fresh_image)": tot["consts_after_refusal"],
+        "earlier_constants_readded_after_a_refusal_same_offset": tot["readd_after_refusal"],
+        "halves_quarters_new_constants_added_after_a_refusal": tot["derived_after_refusal"],
+        "embed_const_pool_checked_after_a_refusal": tot["embeds_after_refusal"],
+        "embed_const_pool_emitters_in_failure_histories": fault_embed_paths,
+        "histories_on_a_pool_reset_after_it_refused_a_request": tot["reuse_after_refusal"],
         "jobs": len(jobs),
     })
     chk.assumptions += [
         "ASan/UBSan instrumented static build of the working tree; constants are handed to add() flush against a poisoned region or from odd addresses",
-        "no allocation faults are injected here (out-of-memory behaviour of ConstPool belongs to C15); an add() of a valid size that fails is reported",
+        "allocation faults are injected only in the failure histories (fexh/frandom), only into arena requests made inside ConstPool::add() (hook H1, -DASMJIT_VERIF build); everywhere else an add() of a valid size that fails is reported",
+        "a refused add() may have registered nothing, the constant, or the constant and some of its shared sub-patterns; its bytes may show up in fill() in storage owned by no handed-out constant; not required: a particular error code, min_item_size(), that the refused call leaves size() unchanged",
+        "after a refusal a constant may be handed out over narrower constants with equal bytes iff a refused, not yet handed out constant that contains it as an aligned slice (or is it) explains the placement and the narrower ones were handed out after that refusal",
+        "embed_const_pool() must bind the pool label at a section offset that is a multiple of the largest constant handed out (not only of alignment())",
         "a new constant may lie inside an earlier wider constant only if the bytes there are equal (sharing); a wider constant laid over earlier narrower ones is reported as overlap even if bytes agree (asmjit documents that it never does that)",
         "alignment() is required to be a power of two >= the largest size added; size() >= every offset+size; neither is required to be minimal",
         "emitter paths: section bytes at label+offset are compared for x86 Assembler/Builder/Compiler and a64 Compiler; loads through the returned operand are executed for x86-64 only",
